@@ -64,6 +64,55 @@ def run(tier, R):
         decode(F, R, I)
         ints(F, R, I)
         mont(F, R, I)
+        operands(F, R, I)
+
+
+# ------------------------------------------------------------------------------------------------------------ OPERANDS
+def operands(F, R, I):
+    """add(a, b) and sub(a, b) of the unpacked scalar type return a canonical value only for a + b - l in (-l, l) resp. a - b in (-l, l): a
+    *constant* operand must respect that for every value of the other one (in [0, l)): both constants of add and the minuend of sub must be
+    below l (the subtrahend may be l itself: `sub(x, L)` is the conditional subtraction of montgomery_reduce / add)."""
+    import eng_mont as MT
+    from absint import Interp
+    lb, nl = MT.backend(F)
+    ip = Interp(F, None)
+    n = nconst = 0
+    for f in sorted(F.fns.values(), key=lambda f: f["key"]):
+        if "mir" not in f or f["crate"] != "curve25519_dalek":
+            continue
+        fv = view(F, f)
+        for bi, t in fv.calls:
+            m = re.search(r"scalar::Scalar(52|29)::(add|sub)$", cname(t))
+            if not m:
+                continue
+            n += 1
+            for ai, a in enumerate(t["args"][:2]):
+                e = ex.strip(expr_of(fv, a, 6))
+                if e[0] != "const" or len(e) < 4:
+                    continue
+                val = None
+                try:
+                    if isinstance(e[1], dict):
+                        # an evaluated constant (possibly behind a promoted reference): {'ref': {'adt': .., 'f': {'0': [limbs]}}}
+                        d = e[1].get("ref", e[1])
+                        limbs = d["f"]["0"]
+                        val = sum(int(x) << (lb * i) for i, x in enumerate(limbs))
+                    elif e[3] is not None:
+                        cs = F.const_by_path.get(str(e[3]))
+                        v = ip.deconst(ip.from_json(cs[0]["value"], cs[0].get("ty", "")))
+                        val = sum(x[1] << (lb * i) for i, x in enumerate(v[1][0][1]))
+                except (KeyError, IndexError, TypeError, AttributeError):
+                    val = None
+                if val is None:
+                    continue
+                nconst += 1
+                inst = I("%s(%s)@%s" % (m.group(2), "minuend" if ai == 0 and m.group(2) == "sub" else ("subtrahend" if m.group(2) == "sub" else "operand %d" % ai), short(f)))
+                limit_ok = val <= L if (m.group(2) == "sub" and ai == 1) else val < L
+                (R.ok if limit_ok else R.viol)("C02.canon.operand", inst, ("constant operand %d %s l" % (val, "<=" if val == L else "<")) if limit_ok else
+                                               "the constant %d (>= l) is used as %s: for the other operand 0 the result is l itself, not a canonical scalar" % (
+                                                   val, "the minuend of sub" if m.group(2) == "sub" else "an operand of add"), *(() if limit_ok else (fv.loc(t["line"]),)))
+    R.floor("C02.canon.operand", I("add / sub call sites of the unpacked scalar type scanned"), n, 4)
+    R.floor("C02.canon.operand", I("constant operands checked"), nconst, 2)
 
 
 # ------------------------------------------------------------------------------------------------------------ MONT
@@ -102,6 +151,21 @@ def mont(F, R, I):
         ok = ret is not None and ret[0] == "fe" and is_zero(fadd(ret, want, -1))
         (R.ok if ok else R.viol)("C02.mont", I(name), ("= %s (%d Montgomery-level operations)" % (show(want), ip.models.ops)) if ok else
                                  "returns %s, expected %s" % (show(ret) if ret is not None and ret[0] == "fe" else "a value outside the domain", show(want)), *(() if ok else (F.loc(f),)))
+    f = one(r"scalar::Scalar(52|29)::from_bytes_wide$")
+    if f is None:
+        R.anchor_missing("C02.mont", I("UnpackedScalar::from_bytes_wide"), "function not found")
+    else:
+        n += 1
+        from absint import I as Iv
+        try:
+            ret, ip, root = MT.run(F, f, [("arr", (Iv(0, 255),) * 64)], fresh=["lo", "hi"])
+            want = fadd(fvar("lo"), fmul(fvar("hi"), fvar("R")))
+            ok = ret is not None and ret[0] == "fe" and is_zero(fadd(ret, want, -1)) and not ip.models.fresh
+            msg = "= lo + hi R for the two limb vectors it assembles (which input bits they hold is C02.codec)" if ok else \
+                "returns %s, expected lo + hi R" % (show(ret) if ret is not None and ret[0] == "fe" else "a value outside the domain")
+        except Exception as e:
+            ok, msg = False, "analysis failed: %r" % (e,)
+        (R.ok if ok else R.viol)("C02.mont", I("UnpackedScalar::from_bytes_wide"), msg, *(() if ok else (F.loc(f),)))
     f = one(r"scalar::Scalar::batch_invert$")
     if f is None:
         R.anchor_missing("C02.mont", I("Scalar::batch_invert"), "function not found")
@@ -131,7 +195,14 @@ def mont(F, R, I):
                     bad.append("n=%d: element %d becomes %s, expected its inverse" % (k, i, show(got) if got is not None and got[0] == "fe" else "?"))
         (R.viol if bad else R.ok)("C02.mont", I("Scalar::batch_invert"), bad[0] if bad else "slices of 0..4 non-zero scalars: every entry becomes its inverse, the return value is the inverse of the product",
                                   *((F.loc(f),) if bad else ()))
-    R.floor("C02.mont", I("scalar operations decided in the Montgomery-radix domain"), n, 10)
+    R.floor("C02.mont", I("scalar operations decided in the Montgomery-radix domain"), n, 11)
+    # byte <-> limb codecs in the bit-provenance domain
+    import codec_rules as CR
+    nc = 0
+    for inst, f_, ok, msg in CR.scalar_codecs(F):
+        nc += 1
+        (R.ok if ok else R.viol)("C02.codec", I(inst), msg, *(() if ok else (F.loc(f_),)))
+    R.floor("C02.codec", I("scalar codecs decided bit by bit"), nc, 3)
 
 
 # ------------------------------------------------------------------------------------------------------------ MAGNITUDE
